@@ -903,6 +903,17 @@ Theorem C04_parked_message_never_swapped : forall c es0 es k dl m,
 Proof. exact parked_never_swapped_init. Qed.
 Print Assumptions C04_parked_message_never_swapped.
 
+(* The same with request context deadlines (Deadline.v, any deadline table): B's side of a step is B's side of
+   the timed step. *)
+Theorem C04_parked_message_never_swapped_deadline : forall c dls es0 es k dl m,
+  let w := dreach_w c dls (dinit c) es0 in
+  0 <= k < FRESH -> craw (tsnd (twb (dw w))) k = Some (dl, m) ->
+  tnow (dw (dreach_w c dls w es)) <= dl ->
+  craw (tsnd (twb (dw (dreach_w c dls w es)))) k = Some (dl, m) \/
+  exists es1 es2, es = es1 ++ es2 /\ craw (tsnd (twb (dw (dreach_w c dls w es1)))) k = None.
+Proof. exact parked_never_swapped_d_init. Qed.
+Print Assumptions C04_parked_message_never_swapped_deadline.
+
 (* The two histories of the seeded regressions on the model (canonical cases of the harness): (a) the second Do
    meets a live element (hypothesis of the theorems above), is refused, the upload goes on: B's application gets
    the 64 bytes, the first Do returns the 2.04; (b) B parks version 0 (75 bytes) before and after the stale
